@@ -530,13 +530,18 @@ package kafka
 //@ func (*conn).run
 //@   trusted the request loop of a transport connection (C06/C17 cover its body)
 //@   requires c.group.pool.sasl == nil || pc.$authok
+//@ property C18 C12
+// C12: the version used on a connection is negotiated from the range the broker advertised for that API: the advertised
+// minimum and maximum are handed to SelectVersion in that order.
 //@ func (*connGroup).connect
 //@   option noframe
 //@   modifies heap
+//@   callsite (ApiKey).SelectVersion requires $1 == r#1.MinVersion && $2 == r#1.MaxVersion
 //@   unproved index@"g.pool.dial(ctx, network[i], address[i])" multi-address net.Addr values are produced by kafka.TCP/makeMultiAddr with equally long comma-separated network and address lists; an arbitrary user Addr is outside C18
 //@   unproved pre@"apiKey.SelectVersion(r.MinVersion, r.MaxVersion)" version ranges come from the broker's ApiVersions response and the registry (C12 covers SelectVersion under these preconditions)
 //@   unproved typeassert@"r.(*apiversions.Response)" protocol.Conn.RoundTrip returns the response type registered for the request type (C04/C06)
 //@   ensures result1 != nil ==> result0 == nil
+//@ property C18
 
 //@ property C09 C15
 
